@@ -159,6 +159,8 @@ SNIPPETS = [
     'import os.path\nimport json.decoder, xml.dom.minidom as md\nos\nos.path\njson\njson.decoder\nmd\nxml\nfrom os import path as p2\np2\n',
     'class A:\n    def m(self):\n        for self.x in []:\n            pass\n        with open("f") as self.f:\n            pass\n        return [0 for self.y in []]\n',
     'return 1\nclass K:\n    return 2\nyield 3\n',
+    # subscript, starred and nested targets of for / with / comprehensions
+    'd = {}\nfor d[0] in []:\n    pass\nwith open("f") as d["k"], open("g") as (d[1], (d[2], *rest)):\n    pass\n[0 for d[3] in []]\nfor (a, d[4]), *b in []:\n    pass\nd\nrest\n',
     'from nosuchmod9 import thing\nimport nosuchmod9\nthing\nnosuchmod9.attr\n',
     'from . import sibling\nfrom .. import up\nsibling\n',
     'x = 1\n\x0c\ndef foo():\n    pass\nfoo\n',
